@@ -18,7 +18,9 @@ RULE = ("cases over Z (i64 and BigInt), Q (Ratio<i64>, Ratio<BigInt>), F2, F3, Z
         "complexes of 1..6 spaces built text-only as D_p = U_(p+1) E_p U_p^-1 (U random invertible with tracked inverse, "
         "0..3 elementary operations per dimension: from very sparse to dense; E_p partial diagonal with 0..100% unit entries "
         "or a common non-unit factor), ranks 0..8 (quick) / 0..12 (thorough), d_deg = +1 and -1, rayon pools of 1, 2, 3, 4, "
-        "8, 16 threads; kinds: 'red' = ChainReducer::reduce(c, true) (shallow then deep pass, default strategy), 'cpx' = "
+        "8, 16 threads; plus conflict-prone complexes over BigInt (pairs of rows that carry a non-unit in the column where "
+        "the partner finds its unit pivot candidate, 2..16 threads: the parallel cycle-free pivot search must detect the "
+        "conflict under every schedule; a panic on a valid complex is a failing input); kinds: 'red' = ChainReducer::reduce(c, true) (shallow then deep pass, default strategy), 'cpx' = "
         "ChainComplexBase::reduced (rank, Trans and d_matrix of every summand), 'scr' = ChainReducer::new + set_matrix "
         "(with_trans per key) + add_vec (0..2 tracked vectors per space) + a script of 1..6 operations among "
         "reduce_at_spec(i, Rows|Cols, One|AnyUnit|Weight(1.0)|Weight(2.5)), reduce_at(i, deep), reduce_all(deep) with an "
@@ -79,7 +81,10 @@ def equal(case, impl, model):
         return True
     p, _, res = split_impl(impl)
     if p:
-        return model == "P"
+        # a panic is only acceptable on the malformed stream (kind `bad`), where the model's None mirrors the
+        # assert!; on a valid complex (kinds red, cpx, scr) the reduction must return for every thread schedule:
+        # the model cannot tell a panic inside the pivot search from an exhausted oracle, so it is not asked
+        return case.split(" ", 1)[0] == "bad" and model == "P"
     if " # " not in model and not model.endswith(" #"):
         return False
     head, mres = (model.split(" # ", 1) + [""])[:2] if " # " in model else (model[:-2], "")
